@@ -19,12 +19,14 @@ Record quirks := {
   q_reuse_registered : bool;  (* inferSchema reuses an already registered name instead of panicking *)
   q_range_check : bool;       (* AssignInt / assignUInt refuse values that do not fit the Go type *)
   q_uint_kind : bool;         (* newNode treats reflect.Uint like reflect.Uint64 (values >= 2^63 readable) *)
-  q_ptr_uint : bool           (* AssignInt / assignUInt look at the kind behind a pointer, not at the pointer *)
+  q_ptr_uint : bool;          (* AssignInt / assignUInt look at the kind behind a pointer, not at the pointer *)
+  q_union_ptr : bool          (* kinded / stringprefix union assemblers go through createNonPtrVal (pointer slots work) *)
 }.
+
 Definition pinned : quirks :=
-  {| q_reuse_registered := false; q_range_check := false; q_uint_kind := false; q_ptr_uint := false |}.
+  {| q_reuse_registered := false; q_range_check := false; q_uint_kind := false; q_ptr_uint := false; q_union_ptr := false |}.
 Definition repaired : quirks :=
-  {| q_reuse_registered := true; q_range_check := true; q_uint_kind := true; q_ptr_uint := true |}.
+  {| q_reuse_registered := true; q_range_check := true; q_uint_kind := true; q_ptr_uint := true; q_union_ptr := true |}.
 
 Inductive level := LType | LRepr.
 
@@ -479,7 +481,10 @@ Section View.
         | SStruct _ ss, GStruct gs =>
             do m <- union_member ss gs O;
             match m with
-            | None => match lv, r with LRepr, URKinded => Err PReflect | _, _ => Err XUnion end
+            | None => match lv, r with
+                      | LRepr, URKinded | LRepr, URStringprefix => Err PReflect
+                      | _, _ => Err XUnion
+                      end
             | Some (i, ms1, mv) =>
                 with_nth
                   (fun m : bytes * sty =>
@@ -487,6 +492,9 @@ Section View.
                      match lv, r with
                      | LRepr, URKinded => Ok d
                      | LRepr, URKeyed => Ok (DMap [(fst m, d)])
+                     | LRepr, URStringprefix =>
+                         (* discriminant ++ the member's own string representation *)
+                         match d with DString x => Ok (DString (fst m ++ x)) | _ => Err XWrongKind end
                      | LType, _ => Ok (DMap [(sty_name (snd m), d)])
                      end)
                   (Err PReflect) ms i
@@ -653,6 +661,21 @@ Section Asm.
         else go r (S i)
     end.
 
+  Fixpoint has_prefix (p s : bytes) : bool :=
+    match p, s with
+    | [], _ => true
+    | a :: p', b :: s' => (a =? b) && has_prefix p' s'
+    | _ :: _, [] => false
+    end.
+
+  Definition with_prefix {R} (x : bytes) (body : nat -> bytes * sty -> R) (none : R)
+    : list (bytes * sty) -> nat -> R :=
+    fix go (ms : list (bytes * sty)) (i : nat) : R :=
+    match ms with
+    | [] => none
+    | m :: r => if has_prefix (fst m) x then body i m else go r (S i)
+    end.
+
   (* struct entries over (content, done flags) *)
   Definition asm_entries (one : bytes -> dm -> list gv -> list bool -> bres (list gv * list bool))
     : list (bytes * dm) -> list gv -> list bool -> bres (list gv * list bool) :=
@@ -780,19 +803,29 @@ Section Asm.
                 (Err XUnion) ms O in
             match lv, r, d with
             | LRepr, URKinded, _ =>
-                (* asKinded: the member whose declared kind is the kind of the data; it indexes
-                   w.val.Field(idx) without createNonPtrVal, so a pointer location panics *)
-                match s with
-                | SPtr _ => Err PReflect
-                | _ =>
+                (* asKinded: the member whose declared kind is the kind of the data; on the pinned tree
+                   it indexes w.val.Field(idx) without createNonPtrVal, so a pointer location panics *)
+                if shape_is_ptr s && negb (q_union_ptr q) then Err PReflect else
                 with_member false (kind_name d)
                   (fun i m =>
                      match nth_shape i ss with
-                     | SPtr ms1 => do x <- asm (snd m) ms1 (zero_of ms1) false d; Ok (union_set ss i x)
+                     | SPtr ms1 => do x <- asm (snd m) ms1 (zero_of ms1) false d; Ok (put s (union_set ss i x))
                      | _ => Err PReflect
                      end)
                   (Err XWrongKind) ms O
-                end
+            | LRepr, URStringprefix, DString x =>
+                (* the first member whose discriminant is a prefix of the string gets the remainder *)
+                if shape_is_ptr s && negb (q_union_ptr q) then Err PReflect else
+                with_prefix x
+                  (fun i m =>
+                     match nth_shape i ss with
+                     | SPtr ms1 =>
+                         do g <- asm (snd m) ms1 (zero_of ms1) false (DString (skipn (length (fst m)) x));
+                         Ok (put s (union_set ss i g))
+                     | _ => Err PReflect
+                     end)
+                  (Err XOther) ms O
+            | LRepr, URStringprefix, DMap _ => Err XOther      (* "bindnode AssembleKey / Finish TODO" *)
             | LRepr, URKeyed, DMap m =>
                 do o <- asm_union_entries
                           (fun k v =>
